@@ -75,6 +75,9 @@ def build(tier, seed):
         for reps in REPLICA_SETS:
             for first, spacing in ((1, 1), (5, 1), (2, 2), (4, 2), (10, 5), (3, 1)):
                 cases.append({'kind': 'rwms', 'version': version, 'reps': reps, 'first': first, 'spacing': spacing})
+            # a file prefix that itself contains the letter that introduces the replica part
+            cases.append({'kind': 'rwms', 'version': version, 'reps': reps, 'first': 3, 'spacing': 2, 'prefix': 'runAr'})
+            cases.append({'kind': 'rwms', 'version': version, 'reps': reps, 'first': 1, 'spacing': 1, 'prefix': 'corr'})
             if tier == 'thorough':
                 for shape in (0, 2):
                     for first, spacing in ((1, 1), (7, 1), (6, 3), (5, 5), (20, 4)):
@@ -83,7 +86,13 @@ def build(tier, seed):
         for first, spacing in ((1, 1), (2, 2), (6, 3)):
             cases.append({'kind': 'msdat', 'reps': reps, 'first': first, 'spacing': spacing})
             cases.append({'kind': 'gfms', 'reps': reps, 'first': first, 'spacing': spacing})
+        cases.append({'kind': 'msdat', 'reps': reps, 'first': 1, 'spacing': 1, 'prefix': 'run7'})
+        # flow measured every dn-th integration step (header field dn > 1), larger lattice so that the flow-time index is > 1
+        cases.append({'kind': 'msdat', 'reps': reps, 'first': 2, 'spacing': 2, 'dn': 2, 'L': 4})
+        cases.append({'kind': 'msdat', 'reps': reps, 'first': 1, 'spacing': 1, 'dn': 3, 'L': 6})
+        cases.append({'kind': 'gfms', 'reps': reps, 'first': 1, 'spacing': 1, 'prefix': 'rr'})
         cases.append({'kind': 'ms5', 'reps': reps})
+    cases.append({'kind': 'sort-names'})
     from checks import c17_sfcf
     cases += c17_sfcf.build(tier)
     return cases
@@ -107,6 +116,8 @@ def run_case(case):
                 run_gfms(pe, acc, case, d)
             elif k == 'ms5':
                 run_ms5(pe, acc, case, d)
+            elif k == 'sort-names':
+                run_sort_names(pe, acc, case)
             else:
                 from checks import c17_sfcf
                 c17_sfcf.run(pe, acc, case, d)
@@ -122,7 +133,7 @@ def run_rwms(pe, acc, case, d):
     if version == '1.4':
         nfct = [1] * len(nsrc)
     nmeas = {1: 11, 2: 14, 10: 9}
-    prefix = 'ensA'
+    prefix = case.get('prefix', 'ensA')
     trajs, cfgs, truth = {}, {}, {}
     for r in reps:
         trajs[r] = sq.traj_numbers(nmeas[r], first, spacing)
@@ -175,31 +186,73 @@ def run_rwms(pe, acc, case, d):
                          'read_rwms(version %s, replicas %s, first trajectory %d, spacing %d, %s, listing order %s): %s' % (version, reps, first, spacing, sel, order, bad))
             else:
                 acc.ok(('rwms', version, tuple(reps), first, spacing, si, tuple(order)), True, 'rwms')
-    # explicit files + names, in user order
+    # explicit files (with and without names) in EVERY order of the list: data, configuration numbers and names stay together,
+    # and per-replica selections follow the order of the list that was passed
     if len(reps) > 1:
-        files = ['%sr%d.ms1.dat' % (prefix, r) for r in reps]
-        nm = ['ensA|rep%d' % r for r in reps]
-        sub = dict(case, files=files)
-        try:
-            res = pe.input.openQCD.read_rwms(d, prefix, version=version, files=list(files), names=list(nm))
-            exp_idl = {n: c0[r] for n, r in zip(nm, reps)}
-            bad = None
-            for i in range(len(nsrc)):
-                bad = bad or check_obs(res[i], nm, exp_idl, {n: truth[r][i] for n, r in zip(nm, reps)})
-            if bad:
-                acc.fail('rwms:files-names', sub, 'explicit files %s with names %s: %s' % (files, nm, bad))
-            else:
-                acc.ok(('rwms-files', version, tuple(reps), first, spacing), True, 'rwms-files')
-        except Exception as e:
-            acc.fail('rwms:files-names:raised', sub, repr(e))
+        for perm in itertools.permutations(reps):
+            files = ['%sr%d.ms1.dat' % (prefix, r) for r in perm]
+            name_sets = {'auto': None, 'rep': ['ensA|rep%d' % r for r in perm],
+                         'unsorted-labels': ['ensA|%s' % 'zyx'[i] for i in range(len(perm))]}      # labels that sort against the file order
+            for nk, nm in name_sets.items():
+                for with_sel in (False, True):
+                    sel = {'r_start': [c0[r][1 + (r % 2)] for r in perm], 'r_stop': [c0[r][-2] for r in perm]} if with_sel else {}
+                    sub = dict(case, files=files, names=nk, sel=with_sel)
+                    eff = nm if nm is not None else [names[r] for r in perm]
+                    try:
+                        kw = dict(sel)
+                        if nm is not None:
+                            kw['names'] = list(nm)
+                        res = pe.input.openQCD.read_rwms(d, prefix, version=version, files=list(files), **kw)
+                        exp_idl, exp_s = {}, [dict() for _ in nsrc]
+                        for n, r in zip(eff, perm):
+                            a = c0[r].index(sel['r_start'][list(perm).index(r)]) if with_sel else 0
+                            b = c0[r].index(sel['r_stop'][list(perm).index(r)]) if with_sel else len(c0[r]) - 1
+                            exp_idl[n] = c0[r][a:b + 1]
+                            for i in range(len(nsrc)):
+                                exp_s[i][n] = truth[r][i][a:b + 1]
+                        bad = None
+                        for i in range(len(nsrc)):
+                            bad = bad or check_obs(res[i], list(eff), exp_idl, exp_s[i])
+                        if bad:
+                            acc.fail('rwms:files-names', sub, 'explicit files %s, names %s%s: %s' % (files, nm or 'automatic', ' with r_start/r_stop' if with_sel else '', bad))
+                        else:
+                            acc.ok(('rwms-files', version, tuple(perm), first, spacing, nk, with_sel), True, 'rwms-files')
+                    except Exception as e:
+                        acc.fail('rwms:files-names:raised', sub, 'explicit files %s, names %s: %r' % (files, nk, e))
     acc.sample({'kind': 'rwms', 'version': version, 'replicas': reps, 'first_trajectory': first, 'spacing': spacing, 'selections': sel_list[:4], 'listing_orders': len(envpatch.orders(nent))})
+
+
+# ----------------------------------------------------------------------------- the helper that orders replica files
+def run_sort_names(pe, acc, case):
+    """sort_names puts replica names into numerical order whatever order they are listed in (every permutation)."""
+    families = {
+        'r<d>': lambda n: 'ensAr%d.ms1.dat' % n, 'r<d> bare': lambda n: 'r%d' % n, 'id<d>': lambda n: 'data_id%d' % n,
+        'r<d>_id<d>': lambda n: 'Xr%d_id7' % n, 'no marker (rep<d>)': lambda n: 'rep%d' % n, 'no marker (prefix_<d>.ext)': lambda n: 'run_%d.dat' % n,
+        'no marker, common leading digit': lambda n: 'b%d' % (100 + n), 'no marker, zero padded': lambda n: 'cfg%03d' % n,
+    }
+    for fam, mk in families.items():
+        for nums in ([1, 2], [1, 2, 10], [2, 10, 11], [0, 5, 30, 100], [9, 10], [1, 10, 100]):
+            want = [mk(n) for n in nums]
+            for perm in itertools.permutations(want):
+                sub = dict(case, family=fam, listing=list(perm))
+                try:
+                    with quiet():
+                        got = pe.input.utils.sort_names(list(perm))
+                except Exception as e:
+                    acc.fail('sort-names:raised', sub, 'sort_names(%s) raised %s: %s' % (list(perm), type(e).__name__, e))
+                    continue
+                if list(got) != want:
+                    acc.fail('sort-names:order', sub, 'sort_names(%s) = %s, numerical order is %s' % (list(perm), got, want))
+                else:
+                    acc.ok(('sortn', fam, tuple(nums), perm), True, 'sort-names')
+    acc.sample({'kind': 'sort-names', 'families': list(families), 'listings': 'every permutation of 2..4 names'})
 
 
 # ----------------------------------------------------------------------------- ms.dat
 def run_msdat(pe, acc, case, d):
     reps, first, spacing = case['reps'], case['first'], case['spacing']
-    prefix = 'ensB'
-    dn, nn, tmax, eps, L = 1, 12, 4, 0.05, 2
+    prefix = case.get('prefix', 'ensB')
+    dn, nn, tmax, eps, L = case.get('dn', 1), 12, 4, 0.05, case.get('L', 2)
     nmeas = {1: 9, 2: 12, 10: 8}
     trajs, cfgs = {}, {}
     for r in reps:
@@ -233,6 +286,27 @@ def run_msdat(pe, acc, case, d):
                     acc.fail('msdat:qtop', sub, 'read_qtop(c=%g, replicas %s, first %d, spacing %d, %s, listing %s): %s' % (c, reps, first, spacing, sel, order, bad))
                 else:
                     acc.ok(('qtop', tuple(reps), first, spacing, c, bool(sel), tuple(order)), True, 'qtop')
+    # explicit files (automatic names / given names) in every order of the list
+    if len(reps) > 1:
+        c = 0.3
+        index_aim = round((c * L) ** 2 / 8 / eps / dn)
+        for perm in itertools.permutations(reps):
+            files = ['%sr%d.ms.dat' % (prefix, r) for r in perm]
+            for nk, nm in (('auto', None), ('unsorted-labels', ['ensA|%s' % 'zyx'[i] for i in range(len(perm))])):
+                sub = dict(case, files=files, names=nk)
+                eff = nm if nm is not None else [names[r] for r in perm]
+                try:
+                    kw = {'names': list(nm)} if nm is not None else {}
+                    q = pe.input.openQCD.read_qtop(d, prefix, c, L=L, files=list(files), **kw)
+                    exp_idl = {n: cfgs[r] for n, r in zip(eff, perm)}
+                    exp_s = {n: [math.fsum(sq.flow_value(r, k, 2, index_aim, t) for t in range(tmax)) for k in range(nmeas[r])] for n, r in zip(eff, perm)}
+                    bad = check_obs(q, list(eff), exp_idl, exp_s, 1e-12)
+                except Exception as e:
+                    bad = 'raised %r' % (e,)
+                if bad:
+                    acc.fail('msdat:qtop:files-names', sub, 'read_qtop with explicit files %s, names %s: %s' % (files, nm or 'automatic', bad))
+                else:
+                    acc.ok(('qtop-files', tuple(perm), first, spacing, nk), True, 'qtop-files')
     # dtr_cnfg = 2: every second measurement belongs to a configuration
     if spacing == 1 and first == 1:
         try:
@@ -260,12 +334,12 @@ def run_msdat(pe, acc, case, d):
             for sel in ({}, {'r_start': [cfgs[r][1] for r in reps], 'r_stop': [cfgs[r][-1] for r in reps]}):
                 for order in envpatch.orders(nent)[:6]:
                     sub = dict(case, plaquette=plaquette, fit_range=fit_range, sel=sel, order=order)
+                    raised = None
                     try:
                         with envpatch.listing_order(order):
                             t0 = pe.input.openQCD.extract_t0(d, prefix, dtr_read=1, xmin=1, spatial_extent=1, fit_range=fit_range, plaquette=plaquette, c=0.5, **sel)
                     except Exception as e:
-                        acc.fail('msdat:t0:raised', sub, 'extract_t0 raised %s: %s' % (type(e).__name__, e))
-                        continue
+                        raised = e
                     block = 0 if plaquette else 1
                     E = {}
                     for n in range(nn + 1):
@@ -277,6 +351,12 @@ def run_msdat(pe, acc, case, d):
                             idl[names[r]] = cfgs[r][a:b + 1]
                         E[n] = (samples, idl)
                     exp = expected_root(pe, E, [n * dn * eps for n in range(nn + 1)], 0.5, fit_range, list(names.values()))
+                    if raised is not None:
+                        if exp is None:      # the fit window around the zero crossing does not lie inside the stored flow times
+                            acc.ok(('t0-ref', tuple(reps), first, spacing, plaquette, fit_range, bool(sel), tuple(order), dn), False, 't0-window-outside-data-refused')
+                        else:
+                            acc.fail('msdat:t0:raised', sub, 'extract_t0 raised %s: %s' % (type(raised).__name__, raised))
+                        continue
                     bad = ref.close(exp, compare.to_ref(t0), 1e-7) if exp is not None else None
                     if bad:
                         acc.fail('msdat:t0', sub, 'extract_t0(plaquette=%s, fit_range=%d, %s, listing %s): %s' % (plaquette, fit_range, sel, order, bad))
@@ -297,8 +377,8 @@ def expected_root(pe, E, times, c, fit_range, names):
     if zc == 0:
         return None
     sel = list(range(zc - fit_range, zc + fit_range))
-    if min(sel) < 0 or max(sel) >= len(times):
-        return None
+    if min(sel) <= 0 or max(sel) >= len(times):
+        return None      # window outside the data, or containing t = 0 where t^2 E - c is the exact number -c (zero error: no weight)
     # errors of the points (weights of the fit): analyse with the implementation (gamma method is decided by C02)
     ys = []
     for n in sel:
@@ -320,7 +400,7 @@ def expected_root(pe, E, times, c, fit_range, names):
 # ----------------------------------------------------------------------------- gfms (sfqcd)
 def run_gfms(pe, acc, case, d):
     reps, first, spacing = case['reps'], case['first'], case['spacing']
-    prefix = 'ensC'
+    prefix = case.get('prefix', 'ensC')
     ncs, tmax, L, cmax = 4, 5, 4, 0.4
     nmeas = {1: 8, 2: 10, 10: 7}
     trajs, cfgs = {}, {}
@@ -391,7 +471,7 @@ def run_ms5(pe, acc, case, d):
     names = {r: '%s|r%d' % (prefix, r) for r in reps}
     nent = len(reps)
     corrs = sq.PLACES_BI + sq.PLACES_BB
-    srt = sorted(reps, key=lambda r: '%sr%d' % (prefix, r))      # the reader pairs files and names in lexicographic order
+    srt = sorted(reps)      # the expected idl list follows the file list: replica numbers in numeric order for a directory listing
     idl_sel = [None, [cfgl[r][1:-1] for r in srt], [cfgl[r][::2] for r in srt]]
     for ci, corr in enumerate(corrs):
         for sel in idl_sel:
@@ -423,4 +503,35 @@ def run_ms5(pe, acc, case, d):
                     acc.fail('ms5:values', sub, 'read_ms5_xsf(%s, replicas %s, idl %s, listing %s): %s' % (corr, reps, sel, order, bad))
                 else:
                     acc.ok(('ms5', tuple(reps), corr, idl_sel.index(sel), tuple(order)), True, 'ms5_xsf')
+    # explicit files in every order, automatic names / given names, idl aligned with the file list
+    if len(reps) > 1:
+        ci, corr = 5, corrs[5]
+        bb = corr in sq.PLACES_BB
+        T = 1 if bb else tmax
+        for perm in itertools.permutations(reps):
+            files = ['%sr%d.ms5_xsf_dd.dat' % (prefix, r) for r in perm]
+            for nk, nm in (('auto', None), ('unsorted-labels', ['ensD|%s' % 'zyx'[i] for i in range(len(perm))]), ('labels-with-replica-number', ['ensD|run_r%d' % r for r in perm])):
+                for with_idl in (False, True):
+                    eff = nm if nm is not None else [names[r] for r in perm]
+                    kw = {'files': list(files)}
+                    if nm is not None:
+                        kw['names'] = list(nm)
+                    if with_idl:
+                        kw['idl'] = [cfgl[r][1:-1] for r in perm]
+                    sub = dict(case, files=files, names=nk, with_idl=with_idl)
+                    try:
+                        res = pe.input.openQCD.read_ms5_xsf(d, prefix, 'dd', corr, **kw)
+                        entries = [res] if bb else [res.content[t][0] for t in range(T)]
+                        bad = None
+                        for t in range(T):
+                            for im, part in ((0, entries[t].real), (1, entries[t].imag)):
+                                exp_idl = {n: (cfgl[r][1:-1] if with_idl else cfgl[r]) for n, r in zip(eff, perm)}
+                                exp_s = {n: [sq.xsf_value(r, c, ci, t, im) for c in exp_idl[n]] for n, r in zip(eff, perm)}
+                                bad = bad or check_obs(part, list(eff), exp_idl, exp_s)
+                    except Exception as e:
+                        bad = 'raised %r' % (e,)
+                    if bad:
+                        acc.fail('ms5:files-names', sub, 'read_ms5_xsf with explicit files %s, names %s%s: %s' % (files, nm or 'automatic', ', idl per file' if with_idl else '', bad))
+                    else:
+                        acc.ok(('ms5-files', tuple(perm), nk, with_idl), True, 'ms5-files')
     acc.sample({'kind': 'ms5_xsf', 'replicas': reps, 'correlators': corrs, 'idl_selections': 3})
